@@ -20,6 +20,8 @@ impl SledDB {
         match config.open() {
             Ok(db) => Ok(SledDB(db)),
             Err(e) if e.to_string().contains("WouldBlock") => {
+                #[cfg(zerokit_verif)]
+                use crate::verif::thread;
                 // try till the fd is freed
                 // sleep for 10^tries milliseconds, then recursively try again
                 thread::sleep(Duration::from_millis(10u64.pow(tries)));
@@ -68,6 +70,12 @@ impl Database for SledDB {
     }
 
     fn close(&mut self) -> PmtreeResult<()> {
+        #[cfg(zerokit_verif)]
+        if crate::verif::write_fault(crate::verif::WriteOp::Flush) == crate::verif::Verdict::Fail {
+            return Err(PmtreeErrorKind::DatabaseError(
+                DatabaseErrorKind::CustomError("Cannot flush database".to_string()),
+            ));
+        }
         let _ = self.0.flush().map_err(|_| {
             PmtreeErrorKind::DatabaseError(DatabaseErrorKind::CustomError(
                 "Cannot flush database".to_string(),
@@ -77,6 +85,8 @@ impl Database for SledDB {
     }
 
     fn get(&self, key: DBKey) -> PmtreeResult<Option<Value>> {
+        #[cfg(zerokit_verif)]
+        crate::verif::yield_point("sled_get");
         match self.0.get(key) {
             Ok(value) => Ok(value.map(|val| val.to_vec())),
             Err(_e) => Err(PmtreeErrorKind::TreeError(TreeErrorKind::InvalidKey)),
@@ -84,6 +94,10 @@ impl Database for SledDB {
     }
 
     fn put(&mut self, key: DBKey, value: Value) -> PmtreeResult<()> {
+        #[cfg(zerokit_verif)]
+        if crate::verif::write_fault(crate::verif::WriteOp::Put) == crate::verif::Verdict::Fail {
+            return Err(PmtreeErrorKind::TreeError(TreeErrorKind::InvalidKey));
+        }
         match self.0.insert(key, value) {
             Ok(_) => Ok(()),
             Err(_e) => Err(PmtreeErrorKind::TreeError(TreeErrorKind::InvalidKey)),
@@ -91,6 +105,11 @@ impl Database for SledDB {
     }
 
     fn put_batch(&mut self, subtree: HashMap<DBKey, Value>) -> PmtreeResult<()> {
+        #[cfg(zerokit_verif)]
+        if crate::verif::write_fault(crate::verif::WriteOp::PutBatch) == crate::verif::Verdict::Fail
+        {
+            return Err(PmtreeErrorKind::TreeError(TreeErrorKind::InvalidKey));
+        }
         let mut batch = sled::Batch::default();
 
         for (key, value) in subtree {
